@@ -483,6 +483,10 @@ func TxDifference(a, b Transactions) (keep Transactions) {
 // SignTx signs the transaction using the given signer and private key
 func SignTx(signer Signer, tx *Transaction, prv *ecdsa.PrivateKey) (*Transaction, error) {
 	h := sigHash(tx)
+	if chainID := signer.ChainID(); chainID != nil && chainID.Sign() != 0 {
+		// a replay-protected signature covers the signer's own hash (chain id included)
+		h = signer.Hash(tx)
+	}
 	sig, err := crypto.Sign(h[:], prv)
 	if err != nil {
 		return nil, err
